@@ -49,7 +49,100 @@ POOL = [[127, 127, 8], [128, 127, 8], [127, 128, 8], [0, 0, 8], [1, 0, 8], [0, 1
         [256, 255, 9], [383, 128, 9], [5, 7, 3], [7, 5, 3], [0, 0, 0]]
 
 
+_huge_seq = [0]
+
+
+def _gen_huge(t):
+    """a bundle that has grown beyond 4 GiB (the formats have 40-bit offsets): built as a sparse file on a real tmpfs
+    directory - 4 GiB of dead records cost nothing there"""
+    one = [[0, 0, 8], [1, 0, 8], [0, 1, 8], [126, 127, 8], [127, 127, 8], [5, 9, 8], [100, 3, 8], [64, 64, 8]]
+    n = t.randint(3, 6)
+    pool = one[:n]
+    return {'kind': 'huge', 'version': t.pick([2, 2, 1]), 'pool': pool, 'extra': t.pick([1000, 12345, 70000, (1 << 31) + 999]),
+            'before': [[t.pick(pool), M.gen_payload(t, None, big=False)] for _ in range(t.randint(1, 4))],
+            'after': [[t.pick(pool), M.gen_payload(t, None, big=False)] for _ in range(t.randint(2, 5))],
+            'bulk': bool(t.choice(2))}
+
+
+def _run_huge(sc, tape):
+    import glob
+    import mmap
+    import shutil
+    from simkit.world import _REAL
+    from mapproxy.script.defrag import defrag_compact_cache
+    version = sc['version']
+    b = {'type': 'compact', 'version': version}
+    name = C.backend_name(b)
+    _huge_seq[0] += 1
+    d = '/dev/shm/verif-c19-%d-%d' % (_REAL['os.getpid'](), _huge_seq[0])
+    os.makedirs(d)
+    v = None
+    model = {}
+
+    def structure(what):
+        for bf in glob.glob(d + '/cache/L*/*.bundle'):
+            with open(bf, 'rb') as f:
+                mm = mmap.mmap(f.fileno(), 0, access=mmap.ACCESS_READ)
+                try:
+                    if version == 2:
+                        BP.v2_validate(mm, os.path.basename(bf))
+                    else:
+                        with open(bf[:-len('.bundle')] + '.bundlx', 'rb') as fi:
+                            BP.v1_validate(fi.read(), mm, os.path.basename(bf))
+                except BP.Invalid as ex:
+                    raise M.Mismatch('invalid-structure', '%s: %s' % (what, ex))
+                finally:
+                    mm.close()
+
+    def contents(cache, what):
+        for c in sc['pool']:
+            t_ = C.make_tile(c)
+            cache.load_tile(t_)
+            got = C.read_tile_bytes(t_) if t_.source is not None else None
+            if got != model.get(tuple(c)):
+                raise M.Mismatch('wrong-bytes' if got is not None and model.get(tuple(c)) is not None else ('lost' if got is None else 'phantom'),
+                                 '%s: address %s returns %s, the latest store was %s' % (what, tuple(c), C.describe(got), C.describe(model.get(tuple(c)))))
+    try:
+        cache = C.make_cache(b, d + '/cache')
+        for c, p in sc['before']:
+            cache.store_tile(C.make_tile(c, C.payload(p)))
+            model[tuple(c)] = C.payload(p)
+        bundles = glob.glob(d + '/cache/L*/*.bundle')
+        size0 = os.path.getsize(bundles[0])
+        # 4 GiB (+ a bit) of what used to be tile records: the file is now larger than 32 bits can address
+        os.truncate(bundles[0], (1 << 32) + sc['extra'])
+        cache = C.make_cache(b, d + '/cache')
+        if sc['bulk']:
+            seen = {}
+            for c, p in sc['after']:
+                seen[tuple(c)] = p
+            cache.store_tiles([C.make_tile(list(c), C.payload(p)) for c, p in seen.items()])
+            for c, p in seen.items():
+                model[c] = C.payload(p)
+        else:
+            for c, p in sc['after']:
+                cache.store_tile(C.make_tile(c, C.payload(p)))
+                model[tuple(c)] = C.payload(p)
+        structure('after stores into a bundle larger than 4 GiB')
+        contents(C.make_cache(b, d + '/cache'), 'bundle larger than 4 GiB')
+        big = os.path.getsize(bundles[0])
+        defrag_compact_cache(C.make_cache(b, d + '/cache'), min_percent=0, min_bytes=0)
+        structure('after defragmenting the large bundle')
+        contents(C.make_cache(b, d + '/cache'), 'after defragmenting the large bundle')
+        if os.path.getsize(bundles[0]) > big:
+            raise M.Mismatch('defrag-grew', 'defragmentation grew the bundle from %d to %d bytes' % (big, os.path.getsize(bundles[0])))
+    except M.Mismatch as m:
+        v = {'sig': 'C19:%s:%s:bundle-over-4GiB' % (m.kind, name), 'msg': m.msg}
+    finally:
+        shutil.rmtree(d, ignore_errors=True)
+    return {'violation': v, 'digest': C.digest_of('huge', sc), 'nontrivial': True, 'steps': len(sc['after']), 'sim_time': 0.0,
+            'faults': {}, 'probes': {'bundle_over_4GiB': 1},
+            'sample': {'mode': 'bundle larger than 4 GiB (sparse file on tmpfs)', 'backend': name}}
+
+
 def gen(t, tier):
+    if t.chance(0.01):
+        return _gen_huge(t)
     version = t.pick([1, 2])
     mode = t.weighted([('seq', 3), ('conc', 2)])
     npool = t.randint(2, 8)
@@ -118,6 +211,14 @@ def _gen_defrag(t):
 
 
 def shrink(sc):
+    if sc.get('kind') == 'huge':
+        for key in ('before', 'after'):
+            for i in range(len(sc[key])):
+                if len(sc[key]) > 1:
+                    c = copy.deepcopy(sc)
+                    del c[key][i]
+                    yield c
+        return
     if sc.get('fault'):
         c = copy.deepcopy(sc)
         del c['fault']
@@ -163,6 +264,8 @@ def _bundle_sizes(tree):
 
 
 def run(sc, tape):
+    if sc.get('kind') == 'huge':
+        return _run_huge(sc, tape)
     version = sc['version']
     name = 'compact-v%d' % version
     b = {'type': 'compact', 'version': version}
